@@ -176,6 +176,8 @@ def scenario(draw):
         "cell_op": draw(st.sampled_from(["aniso", "shear"])),
         # one more table entry: two bare user moves inside the package's plain CompositeMove, with a bare criteria
         "wrapped": draw(st.booleans()),
+        # ... whose first member is the very object of entry u0 (one user move reachable through two table entries)
+        "wrap_shared": draw(st.booleans()),
         # a bystander entry that is scheduled only every 2nd/3rd step and never selected: it is still part of the table
         # and must hear of every accepted change; and the first user move listed once more under another name with
         # its own criteria and schedule
@@ -247,6 +249,9 @@ class C20Machine(M.HistoryMachine):
                 from quansino.moves.composite import CompositeMove
 
                 wa, wb, wc = BareMove(payload=30), BareMove(payload=31), BareCriteria(payload=41)
+                if scn.get("wrap_shared"):
+                    wa = self.users[0][0]
+                    self.labels.add("user-move-also-inside-a-composite-entry")
                 self.guarded("add_move", self.mc.add_move, CompositeMove([wa, wb]), criteria=wc, name="w")
                 self.wrapped = (wa, wb, wc)
                 self.labels.add("bare-moves-in-plain-composite")
@@ -661,7 +666,7 @@ class C20Machine(M.HistoryMachine):
             if getattr(self, "wrapped", None):
                 w2 = mc2.moves.get("w")
                 inner = list(getattr(getattr(w2, "move", None), "moves", []) or [])
-                if [type(x) for x in inner] != [BareMove, BareMove] or [_st(x)["payload"] for x in inner] != [30, 31] or type(w2.criteria) is not BareCriteria:
+                if [type(x) for x in inner] != [BareMove, BareMove] or [_st(x)["payload"] for x in inner] != [10 if self.scn.get("wrap_shared") else 30, 31] or type(w2.criteria) is not BareCriteria:
                     self.fail("serialisation-rebuild", f"{type(self.mc).__name__}.from_dict did not rebuild the user moves inside the plain composite entry")
                     raise M.Stop()
             mc2.close()
